@@ -30,12 +30,13 @@ class Fault(Exception):
 class RefMem:
     """byte dict, little endian, addresses modulo 2^32, valid range [DATA_MIN, 2^32)."""
 
-    def __init__(self, init=None):
+    def __init__(self, init=None, lo=DATA_MIN):
         self.b = {int(k): int(v) for k, v in (init or {}).items()}
+        self.lo = lo  # (0: a caller-supplied data memory whose valid range is the whole address space)
 
     def _chk(self, a):
         a &= M32
-        if a < DATA_MIN:
+        if a < self.lo:
             raise Fault("addr", a)
         return a
 
@@ -238,13 +239,13 @@ def footprint(d, ops):
 class SeqRef:
     """sequential (single-cycle) reference machine."""
 
-    def __init__(self, prog, regs=None, mem=None, pc=0):
+    def __init__(self, prog, regs=None, mem=None, pc=0, data_min=DATA_MIN):
         self.prog = prog  # dict addr -> decoded
         self.x = [0] * 32
         for k, v in (regs or {}).items():
             if int(k):
                 self.x[int(k)] = v & M32
-        self.mem = RefMem(mem)
+        self.mem = RefMem(mem, data_min)
         self.pc = pc
         self.out = ""
         self.exit = None
